@@ -89,7 +89,15 @@ func c11Templates(r interface{ IntN(int) int }) (*ref.Node, []string, []*gen.Ty)
 	L := ref.Id("l")
 	idx := ref.Bin("%", ref.Static("abs", a), ref.Int(5))
 	var body *ref.Node
-	switch k := r.IntN(17); k {
+	switch k := r.IntN(19); k {
+	case 17, 18:
+		// one call site that meets receivers of different types in concurrent evaluations
+		v := ref.Id("v")
+		body := ref.ListN(ref.Method(v, "size"), ref.Method(ref.Method(v, "string"), "len"), ref.Try(ref.Method(ref.Method(v, "map", ref.Clo([]string{"q"}, ref.Int(1))), "size"), ref.Int(-1)))
+		if k == 18 {
+			body = ref.ListN(ref.Method(v, "string"), ref.Try(ref.Method(v, "size"), ref.Int(-1)), ref.Try(ref.Method(v, "len"), ref.Int(-2)), ref.Try(ref.Method(v, "abs"), ref.Int(-3)))
+		}
+		return body, []string{"v"}, []*gen.Ty{nil} // nil: values of several types, see the pool in Run
 	case 16:
 		// random numbers: the outcome is not comparable, but evaluations must not race on the generator's state
 		return ref.Method(ref.Method(ref.Static("numbers", ref.Int(200)), "map", ref.Clo([]string{"i"}, ref.Bin("+", ref.Static("random", ref.Int(6)), ref.Static("random")))), "sum"), []string{"a"}, []*gen.Ty{gen.TInt}
@@ -210,8 +218,14 @@ func (c11) Run(c *wk.Case) {
 		iso     *bridge.Outcome // outcome of an isolated evaluation (other function instance), where the model leaves the outcome open
 	}
 	var pool []job
+	poly := []ref.Value{ref.NewList(int64(1), int64(2), int64(3)), ref.MapOf("a", int64(1), "b", int64(2)), "hello", int64(42), 2.5, ref.NewList()}
 	for i := 0; i < 6; i++ {
-		tu := genArgs(c.Rng, p)
+		var tu []ref.Value
+		if len(p.ArgTypes) == 1 && p.ArgTypes[0] == nil {
+			tu = []ref.Value{poly[i]}
+		} else {
+			tu = genArgs(c.Rng, p)
+		}
 		wv, we, rae := refEval(in, prog, argNames, tu)
 		if we != nil && we.Budget {
 			continue
@@ -264,11 +278,31 @@ func (c11) Run(c *wk.Case) {
 		var wg sync.WaitGroup
 		var ready sync.WaitGroup
 		start := make(chan struct{})
+		// with equal arguments the host may as well pass the very same slice to every call - one that has
+		// room to spare behind its last element (scalar arguments only: a lazy list argument is not shared)
+		var sharedArgs []value.Value
+		if same && round%2 == 0 {
+			scalar := true
+			for _, a := range jobs[0].refArgs {
+				switch a.(type) {
+				case int64, float64, string, bool:
+				default:
+					scalar = false
+				}
+			}
+			if scalar {
+				sharedArgs = append(make([]value.Value, 0, len(jobs[0].refArgs)+8), realArgsVariant(jobs[0].refArgs, bridge.Variant{})...)
+				c.Count("rounds_with_one_shared_argument_slice", 1)
+			}
+		}
 		for i := 0; i < ng; i++ {
 			wg.Add(1)
 			ready.Add(1)
 			// own argument objects per call
 			ra := realArgsVariant(jobs[i].refArgs, bridge.Variant{LazyLists: i%2 == 0})
+			if sharedArgs != nil {
+				ra = sharedArgs
+			}
 			go func(i int, ra []value.Value) {
 				defer wg.Done()
 				ready.Done()
